@@ -22,6 +22,33 @@ impl ModuleLoader {
         needs: &aelys_syntax::NeedsStmt,
         vm: &mut VM,
     ) -> Result<()> {
+        let mut initialised = false;
+        let result = self.compile_module_steps(
+            file_path,
+            module_key,
+            module_path_str,
+            needs,
+            vm,
+            &mut initialised,
+        );
+        if result.is_err() && !initialised {
+            // registered (for cycle detection) but its top level never completed: it is not
+            // loaded, a later import must load it again
+            self.loaded_modules.remove(module_key);
+        }
+        result
+    }
+
+    #[allow(clippy::too_many_arguments)]
+    fn compile_module_steps(
+        &mut self,
+        file_path: &Path,
+        module_key: &str,
+        module_path_str: &str,
+        needs: &aelys_syntax::NeedsStmt,
+        vm: &mut VM,
+        initialised: &mut bool,
+    ) -> Result<()> {
         let content = std::fs::read_to_string(file_path).map_err(|_| {
             AelysError::Compile(CompileError::new(
                 CompileErrorKind::ModuleNotFound {
@@ -167,6 +194,7 @@ impl ModuleLoader {
         vm.execute(func_ref)?;
 
         vm.sync_globals_to_hashmap(global_layout.names());
+        *initialised = true;
 
         self.register_exports(needs, &exports, vm)?;
 
